@@ -176,6 +176,10 @@ def generate(seed, tier):
         else:
             t = G.rand_tree(r, r.randint(1, 3 if quick else 6), widths=(0, 1, 2, 3, 4), maxlen=r.choice([8, 40, 600]), leaf=leaf, unstable_keys=True)
         yield "storeval itsession 0 %s" % " ".join(G.value_tokens(t))
+    for i in range(120 if quick else 2000):
+        # the item in a save frame nested in a save frame (the walker gets there through all_frames twice)
+        t = leaf(r) if r.random() < 0.4 else G.rand_tree(r, r.randint(1, 3), widths=(0, 1, 2, 3), maxlen=r.choice([8, 40]), leaf=leaf, unstable_keys=True)
+        yield "storeval frameset %d %s" % (r.randint(0, 2), " ".join(G.value_tokens(t)))
     for i in range(1500 if quick else 25000):
         mode = r.random()
         if mode < 0.3:
@@ -270,7 +274,10 @@ def split_top(s):
 
 
 def agree(impl, model, req=None):
-    """the model predicts the result code and the field-level dump of the value read back"""
+    """the model predicts the result code and everything from ` m=` on: the field-level dump of the value get_value read back, get_value's
+    code (f=: 0 or CIF_AMBIGUOUS_ITEM), the field-level dumps of every packet the iterator delivered (mi=) and of every value the walker
+    presented (mw=), and the two doubles of a top-level number (d=) — computed by lean/Driver/Fam/Storeval.lean through the model's
+    get_value, packet iterator (Model/PktItr) and walk (Model/Walk) on its store model (Model/StoreRead)"""
     if impl == model:
         return True
     m = SESSION.match(impl)
